@@ -567,6 +567,94 @@ def handle(line: str) -> str:
             return "OK"
         except Exception as e:  # noqa
             return "BAD-REQUEST " + repr(e)
+    if cmd == "COUNT":
+        # C19 instrumentation from outside: FSMMachine.handle calls, TokenScanner method calls, element reads / copies, cursor direction
+        try:
+            import json as _json
+            import metasequoia_sql.common.scanner as _sc
+            from metasequoia_sql import SQLParser, SQLType
+            from metasequoia_sql.common.basic import preproc_sql
+            entry, dialect = words[1], words[2]
+            text = "".join(chr(int(w)) for w in words[3:])
+            st = {"handle": 0, "calls": 0, "reads": 0, "copied": 0, "iter": 0, "back": 0, "scanners": 0}
+
+            class CountingList(list):
+                def __getitem__(self, i):
+                    if isinstance(i, slice):
+                        r = list.__getitem__(self, i)
+                        st["copied"] += len(r)
+                        return r
+                    st["reads"] += 1
+                    return list.__getitem__(self, i)
+
+                def __iter__(self):
+                    st["iter"] += len(self)
+                    return list.__iter__(self)
+            TS = _sc.TokenScanner
+            saved = {}
+            if not getattr(TS, "_verif_wrapped", False):
+                orig_init = TS.__init__
+
+                def init(self, elements):
+                    orig_init(self, CountingList(elements))
+                    st["scanners"] += 1
+                saved["__init__"] = orig_init
+                TS.__init__ = init
+                for name, fn in list(vars(TS).items()):
+                    if name.startswith("_") or not callable(fn):
+                        continue
+
+                    def mk(f):
+                        def w(self, *a, **k):
+                            st["calls"] += 1
+                            p0 = self._pos
+                            try:
+                                return f(self, *a, **k)
+                            finally:
+                                if self._pos < p0:
+                                    st["back"] += 1
+                        return w
+                    saved[name] = fn
+                    setattr(TS, name, mk(fn))
+            M = machine(False)
+            orig_handle = M.handle
+
+            def handle_w(self, memory, ch):
+                st["handle"] += 1
+                return orig_handle(self, memory, ch)
+            M.handle = handle_w
+            try:
+                try:
+                    toks = M.parse(text)
+                    n_tok = 0
+                    stack = list(toks)
+                    while stack:
+                        t = stack.pop()
+                        n_tok += 1
+                        stack.extend(t.children)
+                    st["tokens"] = n_tok
+                    st["lex"] = "OK"
+                except Exception as e:  # noqa
+                    st["lex"] = "ERR " + err_name(e)
+                    st["tokens"] = 0
+                lex_handle = st["handle"]
+                try:
+                    getattr(SQLParser, "parse_" + entry)(text, sql_type=SQLType[dialect])
+                    st["parse"] = "OK"
+                except RecursionError:
+                    st["parse"] = "ERR Recursion"
+                except Exception as e:  # noqa
+                    st["parse"] = "ERR " + err_name(e)
+                st["handle_total"] = st["handle"]
+                st["handle"] = lex_handle
+                st["chars"] = len(preproc_sql(text))
+            finally:
+                M.handle = orig_handle
+                for k, v in saved.items():
+                    setattr(TS, k, v)
+            return "OK " + _json.dumps(st, sort_keys=True)
+        except Exception as e:  # noqa
+            return "BAD-REQUEST " + repr(e)
     if cmd == "CURSOR":
         try:
             return run_cursor(words[1:])
